@@ -135,3 +135,6 @@ Example ids_fresh_example :
   exists r, restore [EServerStart 3; ETaskStarted 5 0 0 [9]; EWorkerLost 7 RStopped; EQueueRemoved 4; EJobCompleted 6] = Ok r
             /\ r_job_counter r = 7 /\ r_worker_counter r = 10 /\ r_queue_counter r = 5 /\ r_uid r = Some 3.
 Proof. eexists. split; [vm_compute; reflexivity | repeat split]. Qed.
+
+Lemma list_max_ge_all l m : (forall x, In x l -> x <= m) -> list_max l <= m.
+Proof. induction l as [|a l IH]; simpl; intros H; [lia|]. specialize (IH (fun x Hx => H x (or_intror Hx))). specialize (H a (or_introl eq_refl)). lia. Qed.
